@@ -529,7 +529,7 @@ def jobs(tier, seed):
 
 def int_jobs(tier, seed):
     T = BYTAG
-    pairs = [("int", "int"), ("uchar", "schar"), ("ullong", "int"), ("long", "uint"), ("short", "llong"), ("schar", "schar")]
+    pairs = [("int", "int"), ("uchar", "schar"), ("ullong", "int"), ("long", "uint"), ("short", "llong"), ("schar", "schar"), ("long", "ulong")]
     if tier == "thorough":
         names = ["schar", "uchar", "short", "ushort", "int", "uint", "long", "ulong", "llong", "ullong"]
         pairs = [(x, y) for x in names for y in names]        # every ordered pair of the ten standard integer types
